@@ -487,6 +487,13 @@ func checkProperty(id, tier string) int {
 		cwg.Add(1)
 		go func(r *fnRun) {
 			defer cwg.Done()
+			defer func() {
+				if e := recover(); e != nil {
+					cmu.Lock()
+					covers = append(covers, cover{fnDisplay(r.fn), false, fmt.Sprint(e)})
+					cmu.Unlock()
+				}
+			}()
 			x := newExec(P, r.fn)
 			s := x.entryState()
 			env := x.specEnv(s, nil)
